@@ -107,11 +107,13 @@ impl<'a> Gen<'a> {
                     } else {
                         None
                     };
-                    let had = scope.contains(&name);
-                    if var.is_some() && !had { scope.push(name.clone()); }
+                    // the body sees the loop variable; what it defines itself may not exist afterwards
+                    // (zero passes), but the loop variable keeps its last value once a pass was made
+                    let mut inner = scope.clone();
+                    if var.is_some() && !inner.contains(&name) { inner.push(name.clone()); }
                     *budget -= 2 * n as i64;
-                    let body = self.block(scope, depth + 1, budget);
-                    if var.is_some() && !had { scope.retain(|v| *v != name); }
+                    let body = self.block(&mut inner, depth + 1, budget);
+                    if var.is_some() && n >= 1 && !scope.contains(&name) { scope.push(name.clone()); }
                     out.push(S::Count { n, spell: self.rng.below(3) as u8, var, body });
                 }
                 5 => {
@@ -119,22 +121,22 @@ impl<'a> Gen<'a> {
                     let ctr = format!("w{depth}");
                     let bound = self.rng.range(0, 4) as f32;
                     out.push(S::Init(ctr.clone(), *self.rng.pick(&[0.0f32, 0.0, 1.0, 5.0])));
-                    scope.push(ctr.clone());
+                    if !scope.contains(&ctr) { scope.push(ctr.clone()); }
                     *budget -= 6;
-                    let mut body = self.block(scope, depth + 1, budget);
+                    let mut inner = scope.clone();
+                    let mut body = self.block(&mut inner, depth + 1, budget);
                     body.push(S::Incr(ctr.clone(), 1.0));
-                    scope.retain(|v| *v != ctr);
                     out.push(S::While { ctr, bound, body });
                 }
                 6 => {
                     let ctr = format!("u{depth}");
                     let bound = self.rng.range(0, 4) as f32;
                     out.push(S::Init(ctr.clone(), *self.rng.pick(&[0.0f32, 0.0, 1.0, 5.0])));
-                    scope.push(ctr.clone());
+                    if !scope.contains(&ctr) { scope.push(ctr.clone()); }
                     *budget -= 6;
-                    let mut body = self.block(scope, depth + 1, budget);
+                    let mut inner = scope.clone();
+                    let mut body = self.block(&mut inner, depth + 1, budget);
                     body.push(S::Incr(ctr.clone(), *self.rng.pick(&[1.0f32, 1.0, 2.0, 0.5])));
-                    scope.retain(|v| *v != ctr);
                     out.push(S::Until { ctr, bound, body });
                 }
                 7 => {
@@ -147,11 +149,14 @@ impl<'a> Gen<'a> {
                         continue;
                     }
                     let idx = if self.rng.chance(1, 2) { Some(format!("x{depth}")) } else { None };
-                    scope.push(var.clone());
-                    if let Some(ix) = &idx { scope.push(ix.clone()); }
+                    let mut inner = scope.clone();
+                    inner.push(var.clone());
+                    if let Some(ix) = &idx { inner.push(ix.clone()); }
                     *budget -= 2 * n as i64;
-                    let body = self.block(scope, depth + 1, budget);
-                    scope.retain(|v| *v != var && Some(v) != idx.as_ref());
+                    let body = self.block(&mut inner, depth + 1, budget);
+                    // items is non-empty: the variables keep the values of the last pass
+                    if !scope.contains(&var) { scope.push(var.clone()); }
+                    if let Some(ix) = &idx { if !scope.contains(ix) { scope.push(ix.clone()); } }
                     out.push(S::For { var, idx, items, spell: self.rng.below(3) as u8, body });
                 }
                 8 | 9 => {
@@ -163,11 +168,13 @@ impl<'a> Gen<'a> {
                     let var = scope[self.rng.below(scope.len())].clone();
                     let op = *self.rng.pick(&["lt", "le", "gt", "ge", "eq", "ne", "mod2", "truthy"]);
                     let c = self.rng.range(-2, 4) as f32;
-                    let body = self.block(scope, depth + 1, budget);
+                    let mut inner = scope.clone();
+                    let body = self.block(&mut inner, depth + 1, budget);
                     out.push(S::If { var, op, c, body });
                 }
                 _ => {
-                    let body = self.block(scope, depth + 1, budget);
+                    let mut inner = scope.clone();
+                    let body = self.block(&mut inner, depth + 1, budget);
                     out.push(S::Group(body));
                 }
             }
